@@ -161,6 +161,59 @@ func (w *World) doGov(in Intent) {
 		}
 		w.St.Fault("gov_token_delisted")
 		w.Submit("gov_submit", proposer, in.Net, map[string]string{"op": in.Op}, msg)
+	case "relist":
+		// one token is listed again with a change that re-interprets what is in flight: other external decimals,
+		// the contract address in another (equally valid) spelling, or another hub id
+		infos := w.ReadState().TokenInfos()
+		if len(infos) == 0 {
+			return
+		}
+		var out []*mhub2types.TokenInfo
+		var maxID uint64
+		for _, ti := range infos {
+			if ti.Id > maxID {
+				maxID = ti.Id
+			}
+		}
+		changed := false
+		for i, ti := range infos {
+			c := *ti
+			if i == in.Pick%len(infos) {
+				switch in.Mut {
+				case "decimals":
+					for _, d := range []uint64{6, 18, 0, 8, 24} {
+						if d != c.ExternalDecimals && c.ChainId != "minter" {
+							c.ExternalDecimals = d
+							changed = true
+							break
+						}
+					}
+				case "respell":
+					if strings.HasPrefix(c.ExternalTokenId, "0x") {
+						lo := strings.ToLower(c.ExternalTokenId)
+						up := "0x" + strings.ToUpper(c.ExternalTokenId[2:])
+						if lo != c.ExternalTokenId {
+							c.ExternalTokenId, changed = lo, true
+						} else if up != c.ExternalTokenId {
+							c.ExternalTokenId, changed = up, true
+						}
+					}
+				case "renumber":
+					c.Id = maxID + 1 + uint64(in.Pick%3)
+					changed = true
+				}
+			}
+			out = append(out, &c)
+		}
+		if !changed {
+			return
+		}
+		msg, err := govtypes.NewMsgSubmitProposal(mhub2types.NewTokenInfosChangeProposal(&mhub2types.TokenInfos{TokenInfos: out}), deposit, proposer.Addr)
+		if err != nil {
+			return
+		}
+		w.St.Fault("gov_token_relisted_" + in.Mut)
+		w.Submit("gov_submit", proposer, in.Net, map[string]string{"op": in.Op}, msg)
 	case "commission":
 		infos := w.ReadState().TokenInfos()
 		if len(infos) == 0 {
